@@ -27,6 +27,7 @@ func H_C09_Overlap() {
 	rc.AddRef(func(resolved bool, val int, err error) {})
 	rc.SetContext(ctxB)
 	rc.SetContext(ctxC)
+	rc.ClearContext() // every resolver call is eventually told to stop
 }
 
 // H_C09_NilCb: AddRef(nil) on a container that may already be resolved must not panic.
